@@ -263,16 +263,22 @@ class _Generator(Generator):
                     type_length)
             ]
         else:
+            # The value is left aligned in 64 bits, the encoding is
+            # as many octets as the size needs (5 to 8).
+            number_of_bytes = (checker.minimum + 7) // 8
+            shift = 8 * (type_length - number_of_bytes)
             encode_lines = [
-                'encoder_append_long_uint(encoder_p, (uint64_t)src_p->{}, {});'.format(
+                'encoder_append_long_uint(encoder_p, (uint64_t)src_p->{} >> {}u, {});'.format(
                     self.location_inner(),
-                    type_length)
+                    shift,
+                    number_of_bytes)
             ]
             decode_lines = [
-                'dst_p->{} = ({})decoder_read_long_uint(decoder_p, {});'.format(
+                'dst_p->{} = ({})(decoder_read_long_uint(decoder_p, {}) << {}u);'.format(
                     self.location_inner(),
                     type_name,
-                    type_length)
+                    number_of_bytes,
+                    shift)
             ]
 
         if type_length == 3:
